@@ -13,12 +13,17 @@ V = "/verif"
 dst = f"{V}/seeded/{sid}"
 meta = json.load(open(f"{dst}/meta.json"))
 checks = sys.argv[2:] or [meta["property"]]
-assert subprocess.run(["git", "-C", "/repo", "status", "--porcelain"], capture_output=True, text=True).stdout == "", "/repo dirty"
-subprocess.run(["git", "-C", "/repo", "apply", f"{dst}/patch.diff"], check=True)
+MUT = os.environ.get("MUTREPO", "/root/work/mutrepo")      # a scratch worktree of /repo: /repo itself is never patched
+if not os.path.isdir(MUT):
+    subprocess.run(["git", "-C", "/repo", "worktree", "add", "-q", "--detach", MUT, "HEAD"], check=True)
+subprocess.run(["git", "-C", MUT, "checkout", "-q", "--detach", subprocess.run(["git", "-C", "/repo", "rev-parse", "HEAD"], capture_output=True, text=True).stdout.strip()], check=True)
+subprocess.run(["git", "-C", MUT, "checkout", "--", "."], check=True)
+ENV = dict(os.environ, SCODA_REPO=MUT)
+subprocess.run(["git", "-C", MUT, "apply", f"{dst}/patch.diff"], check=True)
 res = []
 try:
     for c in checks:
-        out = subprocess.run([f"{V}/check", c], cwd=V, capture_output=True, text=True).stdout
+        out = subprocess.run([f"{V}/check", c], cwd=V, capture_output=True, text=True, env=ENV).stdout
         m = re.search(r"^VIOLATION property=(\S+) replay=(\S+)(.*)$", out, flags=re.M)
         if not m:
             res.append({"check": f"./check {c}", "result": "not reported"})
@@ -33,7 +38,8 @@ try:
                 os.makedirs(f"{V}/corpus/{c}", exist_ok=True)
                 json.dump(entry, open(f"{V}/corpus/{c}/{h}.json", "w"), indent=1)
 finally:
-    subprocess.run(["git", "-C", "/repo", "checkout", "--", "."], check=True)
+    subprocess.run(["git", "-C", MUT, "checkout", "--", "."], check=True)
+    subprocess.run(["/venv/bin/python", f"{V}/tools/gen_lean.py"], capture_output=True)      # Gen/*.lean back to /repo's source
 meta["detected_by_after_strengthening"] = res
 json.dump(meta, open(f"{dst}/meta.json", "w"), indent=1)
 print(sid, [(r["check"], r["result"][:34]) for r in res])
